@@ -424,7 +424,9 @@ def _update_tables(ck: Checker, prog: Program):
                 if e[0] == "store":
                     last[e[1]] = e[2]
             v = last.get(state[0])
-            if v not in (SR, F("tuple")(SR), sp.Tuple(gi(SR, sp.Integer(0)), gi(SR, sp.Integer(1)))):
+            if v == SR:
+                problems.append(f"{state[0]} <- the caller's own object (not a copy): a list edited afterwards changes the range this object believes it searched")
+            elif v not in (F("tuple")(SR), sp.Tuple(gi(SR, sp.Integer(0)), gi(SR, sp.Integer(1)))):
                 problems.append(f"{state[0]} <- {v}")
             v = last.get(state[1])
             if v is None:
